@@ -55,7 +55,7 @@ PROPS = {
                      "dischargers and a guard-checked justification table",
     },
     "C11": {
-        "rules": [r_fmt.lexicon_rows_reader, r_feat.run, r_feat.rawinput, r_misc.parallel,
+        "rules": [r_fmt.lexicon_rows_reader, r_feat.run, r_feat.rawinput, r_feat.csvdefault, r_misc.parallel,
                   kind_scope("dictionary::lexicon", "dictionary::unknown")],
         "explanation": "FMT(reader side): parse_csv stores CSV column 1, 2, 3 into left_id, "
                        "right_id, word_cost (column -> WordParam::new parameter -> field, KIND "
@@ -72,7 +72,7 @@ PROPS = {
     },
     "C14": {
         "rules": [r_fmt.run_c14, r_cost.run_c14, kind_scope("trainer::model"), r_misc.cache, r_misc.idxbase,
-                  r_codec.run_c18],
+                  r_codec.run_c18, r_feat.csvdefault],
         "explanation": "FMT: each generated file's row template (delimiters, column count and "
                        "order, quoted surface first, feature last) matches what the compiler's "
                        "reader does with each column (parse_csv column->field mapping, "
@@ -104,7 +104,7 @@ PROPS = {
     },
     "C18": {
         "rules": [kind_scope("trainer", "mecab"), r_fmt.bigram_files, r_codec.run_c18,
-                  r_misc.template_cover],
+                  r_misc.template_cover, r_misc.regex_trainer, r_misc.csvsplit],
         "explanation": "KIND over the trainer: unigram/left/right templates, id tables and "
                        "next-id counters are never mixed (same-family rule on "
                        "extract_feature_ids), extract_left/right results reach the matching "
@@ -132,7 +132,7 @@ PROPS = {
     },
     "C20": {
         "rules": [kind_scope("mecab"), r_cost.run_c20, r_fmt.bigram_files, r_misc.template_cover,
-                  r_scorer.scorer_build],
+                  r_scorer.scorer_build, r_misc.regex_mecab],
         "explanation": "KIND: the documented left/right inversion of right-id.def/left-id.def is "
                        "applied consistently (readers, extractors, maps, writers, loop bounds vs "
                        "looked-up map); SIGN: cost = -(weight x factor); COSTTYPE: i32 as the "
@@ -337,7 +337,7 @@ PROPS = {
     },
     "C17": {
         "rules": [r_rewrite.run, kind_scope("trainer::config", "trainer::Trainer::extract_feature_set"),
-                  r_codec.run_c18],
+                  r_codec.run_c18, r_misc.regex_trainer, r_misc.csvsplit],
         "explanation": "FIRSTMATCH-BUILD: FeatureRewriterBuilder::add_rule moves along an existing "
                        "trie edge only when that edge is the newest action of its node (or never), "
                        "and appends new actions: the rules below every edge are then a contiguous "
